@@ -225,7 +225,7 @@ func ruleTomb(c *Ctx) []*Ob {
 			// phase 1: the edges on which k1's value result was tested and found nil
 			var nilTargets []*ssa.BasicBlock
 			seenT := map[*ssa.BasicBlock]bool{}
-			walk(after(k1), walkOpts{origin: k1, originIdx: 0,
+			walk(after(k1), walkOpts{origin: k1, originIdx: 0, noInline: true,
 				visit: func(i ssa.Instruction, t *tracker) bool { return i == ssa.Instruction(k1) },
 				edge: func(from, to *ssa.BasicBlock, label string, cond ssa.Value, onTrue bool, t *tracker) bool {
 					if label == "nil" && !seenT[to] {
@@ -236,7 +236,7 @@ func ruleTomb(c *Ctx) []*Ob {
 				}})
 			// phase 2: lookups on another source reachable after such an edge
 			for _, nt := range nilTargets {
-				walk(point{nt, 0}, walkOpts{visit: func(i ssa.Instruction, t *tracker) bool {
+				walk(point{nt, 0}, walkOpts{noInline: true, visit: func(i ssa.Instruction, t *tracker) bool {
 					if i == ssa.Instruction(k1) {
 						return true
 					}
@@ -289,7 +289,7 @@ func ruleTomb2(c *Ctx) []*Ob {
 			return
 		}
 		bad := ""
-		walk(after(k), walkOpts{seed: []ssa.Value{},
+		walk(after(k), walkOpts{seed: []ssa.Value{}, noInline: true,
 			origin: k, originIdx: 0,
 			visit: func(j ssa.Instruction, t *tracker) bool {
 				if r, ok := j.(*ssa.Return); ok {
